@@ -66,6 +66,8 @@ def make(name, tx=0, ty=0):
         return poly("mid", tx, ty) - poly("hole", tx, ty, rev=True)
     if name == "tinyring":  # small frame that fits into the hole of `hollow`
         return ConnectedShape([poly("tinyo", tx, ty), poly("tinyi", tx, ty)])
+    if name == "bullseye":  # a frame with a small frame inside its hole, built by an operator (nesting depth 2)
+        return make("hollow", tx, ty) | make("tinyring", tx, ty)
     if name == "two":  # two components
         return DisjointShape([poly("square", tx, ty), poly("far", tx, ty)])
     if name == "framedot":  # frame with an island in its hole... a Disjoint of Connected + Simple
@@ -91,6 +93,8 @@ def region_of_name(name, tx=0, ty=0):
         return ("and", [region_of_name("mid", tx, ty), region_of_name("hole", tx, ty)])
     if name == "tinyring":
         return ("and", [region_of_name("tinyo", tx, ty), region_of_name("tinyi", tx, ty)])
+    if name == "bullseye":
+        return ("or", [region_of_name("hollow", tx, ty), region_of_name("tinyring", tx, ty)])
     if name == "two":
         return ("or", [region_of_name("square", tx, ty), region_of_name("far", tx, ty)])
     if name == "framedot":
